@@ -116,12 +116,13 @@ func buildClassAdjacency(ai, bi int) (src string, boundary int, ctx string) {
 		}
 	}
 	emit("", "module Adjmix", "  def mixed", "    2.5", "  end", "end", "class Adjc")
-	emit("  ", "def first_m", "  0", "end")
+	emit("  ", "def initialize", "  @iv = 1.5", "end", "def first_m", "  0", "end")
 	emit("  ", a.Lines...)
 	boundary = len(lines) + 1
 	emit("  ", b.Lines...)
-	emit("  ", "def last_m", "  :z", "end")
-	emit("", "end", "av = Adjc.new", "dbtp av.cm", "dbtp av.first_m", "dbtp av.last_m", "av.lv", "av.nope")
+	// (a body that ends early shows here: last_m reads what initialize set)
+	emit("  ", "def last_m", "  @iv", "end", "def self.last_s", "  new.first_m", "end")
+	emit("", "end", "av = Adjc.new", "dbtp av.cm", "dbtp av.first_m", "dbtp av.last_m", "dbtp Adjc.last_s", "av.lv", "av.nope")
 	return strings.Join(lines, "\n") + "\n", boundary, "adj-class:" + a.Name + "|" + b.Name
 }
 
